@@ -30,6 +30,10 @@ CLAIMED = {
          "Decides absence of shared mutable locations between calls on independent arguments: every store in reachable library code is rooted at a parameter/receiver, captured variable or fresh allocation, or is a reported package-variable write (known finding: accumulators). Sufficient for race freedom on independent inputs; schedules are not explored.",
          "Trusted: call graph; external read-only summaries; stdlib functions called on per-call values share no hidden mutable state. Not decided: observation under the race detector, equality with sequential results.",
          "DESIGN.md 4 C09"),
+ "C11": ("other", "path-sensitive error-flow analysis on SSA with a nilness domain (every error-producing call in the reachable decoder), swallow-site guard rule, sentinel who-may-produce rule",
+         "Decides per path, which covers every cut and fault offset: no error produced by a callee in the decoder can be non-nil while the enclosing function returns nil, except at the one EOF-class-guarded chain end. A dropped or swallowed error is visible in the CFG on every input that reaches it; the tests only sample offsets.",
+         "Trusted: go/ssa CFG; hash.Hash.Write never fails; fmt.Errorf/errors.New never return nil; stdlib sentinel errors are non-nil; frozen exception fill/Read (n > 0 => err = nil) shape-checked on every run. Not decided: content of the partial File beyond C03-6.",
+         "DESIGN.md 4 C11"),
 }
 
 NOT_APPLICABLE = {
